@@ -39,7 +39,9 @@ ASSUME AllSpellingsDenoteTheValue
 
 (* layout between two tokens; "" only where the two tokens cannot fuse *)
 Layouts == {" ", "  ", "\t", "\n", "\r\n", " \n\t ", " // a comment ; : |\n", "/* a comment */", " /* * / ** / */ ",
-            "/**/", "\n\n// x\n// y\n", " /*\n multi\n line */ "}
+            "/**/", "\n\n// x\n// y\n", " /*\n multi\n line */ ",
+            \* stars next to the delimiters: the comment ends at the FIRST star-slash
+            "/** doc **/", "/***/", "/****/", " /* a ***/ ", "/*/ */", "/* // */", "//\n", "// /* \n", " /* x **/\t"}
 
 ASSUME JsonSerialize("spellings.json",
          [chars |-> {<<v, CharSpellings(v)>> : v \in TestValues}, layouts |-> Layouts])
